@@ -49,14 +49,15 @@ static std::string run_local(const vj::Value& c, const Dist::Comm& comm, int per
   const std::vector<long long>& mine = dofs[me];
   const Index nloc = Index(mine.size());
 
-  // gate: one mirror per neighbour (ranks sharing a dof), entries in ascending global dof order on both sides
+  // gate: one mirror per neighbour (ranks sharing a dof).  The specification lists the dofs of a rank in the rank's LOCAL
+  // numbering (not ascending in general) and gives the mirror of every neighbour pair: entry k = local index of the k-th
+  // shared dof in the common buffer order (ascending global dof) - not monotone for a renumbered patch.
   GateT gate(comm);
   std::vector<int> nbrs;
   for(int s = 0; s < nr; ++s)
   {
     if(s == me) continue;
-    std::vector<Index> idx;
-    for(Index i = 0; i < nloc; ++i) if(std::find(dofs[s].begin(), dofs[s].end(), mine[i]) != dofs[s].end()) idx.push_back(i);
+    const std::vector<long long> idx = c["mir"][key(me)][key(s)].ints();
     if(idx.empty()) continue;
     Mirror mir(nloc, Index(idx.size()));
     for(std::size_t k = 0; k < idx.size(); ++k) mir.indices()[k] = IT(idx[k]);
